@@ -35,6 +35,9 @@ def log(*a):
 def build_harness(race=False):
     os.makedirs(BUILD, exist_ok=True)
     shutil.copyfile(os.path.join(REPO, "go.sum"), os.path.join(HARNESS, "go.sum"))
+    if REPO != "/repo":
+        # a snapshot of the repository (vp run --with-repo): point the harness module at it
+        sh(["go", "mod", "edit", "-replace=github.com/aml-org/amf-custom-validator=" + REPO], cwd=HARNESS, env=GOENV)
     out = ACVH + ("_race" if race else "")
     cmd = ["go", "build", "-tags", "verif", "-o", out]
     env = dict(GOENV)
